@@ -267,6 +267,7 @@ func runC17(c *engine.Ctx) {
 	})
 	c.Add(int64(total), int64(total*len(kinds)), int64(total*len(kinds)), 0)
 	runC17Sequences(c)
+	runC17HostStyle(c)
 	c.AddSample(map[string]interface{}{"name": "a-z", "oracle": "accept"})
 	c.AddSample(map[string]interface{}{"name": "aaa.zz", "oracle": "refuse (label shorter than 3)"})
 	c.AddSample(map[string]interface{}{"name": "192.168.100.200", "oracle": "refuse (IPv4)"})
@@ -450,4 +451,78 @@ func runC17Sequences(c *engine.Ctx) {
 			New: func() (engine.Sys, error) { return newC17Sys(k) }})
 		c.Bounds[name] = map[string]interface{}{"ops": len(c17OpList), "depth": depth}
 	}
+}
+
+// runC17HostStyle: the decision is the same when the name arrives as the label of a
+// virtual-host style request (PUT / with Host: <name>.<base>) instead of in the path.
+func runC17HostStyle(c *engine.Ctx) {
+	var names []string
+	const alpha = "az09-A_"
+	var gen func(prefix string, n int)
+	gen = func(prefix string, n int) {
+		if n == 0 {
+			names = append(names, prefix)
+			return
+		}
+		for _, ch := range alpha {
+			gen(prefix+string(ch), n-1)
+		}
+	}
+	gen("", 3)
+	gen("", 4)
+	names = append(names, "ABC", "Abc", "abC", "aBc-def", "abc-DEF", strings.Repeat("a", 63), strings.Repeat("a", 64), strings.Repeat("A", 10))
+	c.Bounds["host_style_names"] = len(names)
+	type cfgT struct {
+		name string
+		cfg  drv.Config
+	}
+	cfgs := []cfgT{{"bases[b1.test]", drv.Config{Kind: drv.Mem, HostBases: []string{"b1.test"}}}, {"host-bucket", drv.Config{Kind: drv.Mem, HostBucket: true}}}
+	chunks := 16
+	engine.ParallelFor(chunks*len(cfgs), func(_, ji int) {
+		cf := cfgs[ji%len(cfgs)]
+		ci := ji / len(cfgs)
+		w, err := drv.NewWorld(cf.cfg)
+		if err != nil {
+			engine.HarnessError("C17: %v", err)
+		}
+		defer w.Close()
+		var created []string
+		for i := ci; i < len(names); i += chunks {
+			name := names[i]
+			r := w.Do(drv.Req{Method: "PUT", Path: "/", Host: name + ".b1.test"})
+			c.Add(0, 1, 1, 1)
+			want := nameOracle(name)
+			accepted := r.Status == 200 && r.Panic == ""
+			bad := func(field, format string, a ...interface{}) {
+				c.Report(&engine.Violation{Sig: sig("C17", "any", "create-bucket-host-style", cf.name, field, nameClass(name)), World: cf.name, History: []string{fmt.Sprintf("PUT / Host: %s.b1.test", name)},
+					Msg: fmt.Sprintf("bucket name %q as the host label (%s): ", name, cf.name) + fmt.Sprintf(format, a...)})
+			}
+			switch {
+			case r.Panic != "":
+				bad("panic@"+drv.PanicFrame(r.Panic), "%s", firstLine(r.Panic))
+			case want == 1 && !accepted:
+				bad("refused-valid", "valid name refused: %s", r.Short())
+			case want == 0 && accepted:
+				bad("accepted-invalid", "invalid name accepted")
+			case want == 0 && !(r.Status == 400 && r.ErrCode() == "InvalidBucketName"):
+				bad("answer", "refused with %s, want 400 InvalidBucketName", r.Short())
+			}
+			if accepted {
+				created = append(created, name)
+			}
+		}
+		// (in host-bucket mode every request names a bucket, so the service-level listing is
+		// taken from the backend the server runs on)
+		bis, lerr := w.Backend.ListBuckets()
+		var listed []string
+		for _, bi := range bis {
+			listed = append(listed, bi.Name)
+		}
+		sort.Strings(listed)
+		sort.Strings(created)
+		if lerr != nil || strings.Join(listed, "\x00") != strings.Join(created, "\x00") {
+			c.Report(&engine.Violation{Sig: sig("C17", "any", "create-bucket-host-style", cf.name, "list-buckets", "created-set"), World: cf.name,
+				Msg: fmt.Sprintf("ListBuckets after host-style creations: listed but not created %q; created but not listed %q", clipList(diffStrings(listed, created)), clipList(diffStrings(created, listed)))})
+		}
+	})
 }
